@@ -1075,6 +1075,9 @@ class Normalizer:
                 inner_i = base.args[1]
                 if isinstance(inner_i, Term) and inner_i.op in ("unique", "nonzero1", "argsort", "list", "setdiff1d", "arange", "flatten", "ravel", "sort"):  # index vectors only: a scalar index would drop the axis
                     return self.nf(Term("getitem", base.args[0], Term("tuple", inner_i, idx.args[1])))
+            # selecting entries of an elementwise power: (x**k)[sel] = (x[sel])**k
+            if isinstance(base, Term) and base.op == "pow" and len(base.args) == 2 and isinstance(base.args[1], Term) and base.args[1].op == "const" and isinstance(base.args[0], Term) and isinstance(idx, Term) and idx.op in ("lt", "le", "gt", "ge", "nonzero1", "invert", "bitand", "bitor"):
+                return self.nf(Term("pow", Term("getitem", base.args[0], idx), base.args[1]))
             # [e(j) for j in range(n)][k] = e(k) for a position k counted by a loop
             if isinstance(base, Term) and base.op == "comp" and len(base.args) == 3 and isinstance(base.args[1], Term) and base.args[1].op == "range" and len(base.args[1].args) == 2 and (_is_zero_t(base.args[1].args[0]) or repr(base.args[1].args[0]) in ("0", "dim(0)")) and isinstance(idx, Term) and idx.op == "lv" and isinstance(base.args[2], Term):
                 from .interp import subst_term as _subst
